@@ -8,7 +8,11 @@
      CR inside the coloured first line).
   2. Abstract records are generated: one cell per (position, character class), one per value
      kind, one per TLC-enumerated tree, a presentation grid (severity x tag width x minimal
-     width x message shape x caller x name), RESERVED-NAME cells (time / level / msg / logger /
+     width x message shape x caller x name), CALLER-SITE cells (the record is attributed to a real call site
+     of the worker behind a //line directive - table LINE_SITES below, generated into
+     harness/fam_encoder_sites.go by `python3 checks/encoderlib.py gen-sites`: one cell per class of the
+     file name (backslash / Windows path, quote, blank, TAB, CR, LF, control, ESC, non-ASCII ...) x site x
+     message / attribute shapes; caller.file must decode to exactly slog.Safety(runtime's file)), RESERVED-NAME cells (time / level / msg / logger /
      caller as the own key of a group member at depth 1..3 x every value kind incl. group; every
      tree TLC enumerated over the keys {k01, time}; colored: the same names at top level), LEVEL
      COLOUR cells (SetLevelColors(sev, fg, bg): {no fg, fg} x {nothing, background, attribute} x
@@ -41,9 +45,148 @@ ATTR_DIAGS = {"invalid-json", "members", "top-level-members", "unparsable", "pai
 IMPLIED = {"after-group": {"group"}, "empty-group": {"group"}, "nested-group": {"group"}}
 RESERVED = {"caller": -1, "level": 96, "logger": 97, "msg": 98, "time": 99}      # ReservedIds of Encoder.tla
 RES_NAME = {v: k for k, v in RESERVED.items()}
+RES_PLACES = ("member-key", "top-key", "empty-group-member")   # where a reserved name can be a key (feature prefixes of EncoderTrace)
 SEV_COLOURED_UNREG = 34        # an unregistered severity whose colours get set (33 stays without any)
 LC_COMBOS = [(f, b) for f in ("none", "fg") for b in ("none", "bg", "attr")]
 NO_LC = dict(set=False, fg="none", bg="none")
+
+
+# ------------------------------------------------------------------ call sites behind //line directives
+
+ENC_S1, ENC_S2 = "pQz7", "7zQp"           # the sentinels of harness/fam_encoder.go
+
+
+def _sp(ch, tail="main.go"):
+    return "/opt/gen/%s%s%s/%s" % (ENC_S1, ch, ENC_S2, tail)
+
+
+# (character class of Encoder.tla, file name of the directive, special character between the sentinels or "")
+# What the Go toolchain (1.23) accepts in `//line file:line` / `/*line file:line*/`: any UTF-8 text - backslashes,
+# quotes, blanks, TAB, CR, every other control character, ESC, DEL, non-ASCII, U+2028, astral code points; a line
+# break in the block form only.  It refuses invalid UTF-8 ("invalid UTF-8 encoding"), NUL ("invalid NUL
+# character") and U+FEFF ("invalid BOM in the middle of the file").  A relative name is reported as written.
+LINE_SITES = [
+    ("plain", "/opt/gen/app/cmd/main.go", ""),                       # the control: an ordinary POSIX path
+    ("plain", _sp("w"), "w"),
+    ("space", "/opt/My Projects/app/main.go", ""),
+    ("space", _sp(" "), " "),
+    ("quote", '/opt/gen/say "hi"/main.go', ""),
+    ("quote", _sp('"'), '"'),
+    ("bslash", "C:\\work\\app\\cmd\\main.go", ""),                 # \w \a \c \m: no JSON escapes
+    ("bslash", "D:\\tmp\\new\\bin\\r.go", ""),                      # \t \n \b \r: JSON escapes of OTHER characters
+    ("bslash", _sp("\\"), "\\"),
+    ("bslash", 'C:\\Program Files\\"app"\\main.go', ""),
+    ("TAB", _sp("\t"), "\t"),
+    ("TAB", "/opt/gen/a\tb/main.go", ""),
+    ("BSFF", _sp("\b"), "\b"),
+    ("BSFF", _sp("\f"), "\f"),
+    ("C0", _sp("\a"), "\a"),
+    ("C0", _sp("\x01"), "\x01"),
+    ("C0", _sp("\x1f"), "\x1f"),
+    ("ESC", _sp("\x1b"), "\x1b"),
+    ("ESC", "/opt/gen/a\x1b[31mb/main.go", ""),
+    ("DEL", _sp("\x7f"), "\x7f"),
+    ("CR", _sp("\r"), "\r"),
+    ("LF", _sp("\n"), "\n"),                                          # block form /*line ...*/
+    ("nonascii", _sp("\u00e9"), "\u00e9"),
+    ("nonascii", "/opt/gen/caf\u00e9/\u4e2d\u6587.go", ""),
+    ("npbmp", _sp("\u200b"), "\u200b"),
+    ("npbmp", _sp("\u0085"), "\u0085"),
+    ("lsep", _sp("\u2028"), "\u2028"),
+    ("astral", _sp("\U0001f600"), "\U0001f600"),
+    ("astralnp", _sp("\U000e0001"), "\U000e0001"),
+    ("markup", _sp("<b>"), "<b>"),
+    ("markup", _sp("&"), "&"),
+    ("equals", _sp("="), "="),
+]
+SITE_VARIANTS = {}
+for _c, _f, _pr in LINE_SITES:
+    SITE_VARIANTS.setdefault(_c, []).append((_f, _pr))
+
+
+def go_quote(s):
+    out = ['"']
+    for ch in s:
+        o = ord(ch)
+        if ch in '"\\':
+            out.append("\\" + ch)
+        elif 0x20 <= o < 0x7f:
+            out.append(ch)
+        elif o < 0x80:
+            out.append("\\x%02x" % o)
+        elif o < 0x10000:
+            out.append("\\u%04x" % o)
+        else:
+            out.append("\\U%08x" % o)
+    return "".join(out) + '"'
+
+
+def line_directive(name, line):
+    """The directive that attributes what follows to name:line (block form when the name has a line break)."""
+    if "\n" in name:
+        return "/*line %s:%d*/ " % (name, line), True
+    return "//line %s:%d\n" % (name, line), False
+
+
+def gen_line_sites(path=None):
+    """Writes harness/fam_encoder_sites.go (`python3 checks/encoderlib.py gen-sites`).  NOT gofmt'ed: the
+    directives carry raw TAB / CR / ESC / control bytes on purpose."""
+    fname = "fam_encoder_sites.go"
+    path = path or os.path.join(os.path.dirname(os.path.dirname(os.path.abspath(__file__))), "harness", fname)
+    L = []           # physical lines (strings without the newline; a string may hold a raw CR etc. but no LF ...)
+
+    def emit(text):
+        # text may contain LF (block form of a directive): count physical lines faithfully
+        L.extend(text.split("\n"))
+
+    emit("// Code generated by `python3 checks/encoderlib.py gen-sites`; DO NOT EDIT, DO NOT gofmt (the //line")
+    emit("// directives carry raw TAB / CR / ESC / control bytes on purpose).")
+    emit("")
+    emit("package main")
+    emit("")
+    emit("// Encoder family (C04 / C05 / C06): real call sites whose source position carries an unusual file")
+    emit("// name - a Windows path, quotes, blanks, control characters, non-ASCII - exactly as generated code")
+    emit("// with //line directives has them.  encSiteAt<k> captures a program counter of such a statement")
+    emit("// (handed to Entry.WriteThru by the per-record component), enchSiteDo<k> logs from such a statement")
+    emit("// through the public entry points (history component).  Table: LINE_SITES of checks/encoderlib.py.")
+    emit("")
+    emit("import (")
+    emit('\t"runtime"')
+    emit("")
+    emit('\t"github.com/hedzr/logg/slog"')
+    emit(")")
+    emit("")
+    call = ('_, f, ln, _ := runtime.Caller(0); if via == "ctx" { l.Logit(encBg, lvl, msg, args...) } else if via == "method" && '
+            'lvl == slog.InfoLevel { l.Info(msg, args...) } else if via == "method" && lvl == slog.WarnLevel { l.Warn(msg, args...) } '
+            'else { l.LogAttrs(encBg, lvl, msg, args...) }')
+    for k, (cls, name, probe) in enumerate(LINE_SITES):
+        for kind in ("at", "do"):
+            line = 40 + k if kind == "at" else 140 + k
+            emit("//go:noinline")
+            if kind == "at":
+                emit("func encSiteAt%d() (uintptr, string, int, string) {" % k)
+                stmt = "return encSiteHere()"
+            else:
+                emit("func enchSiteDo%d(l *slog.Entry, via string, lvl slog.Level, msg string, args []any) (int, string, string) {" % k)
+                stmt = call
+            d, block = line_directive(name, line)
+            if block:
+                emit("\t" + d + stmt)
+            else:
+                emit(d + "\t" + stmt)
+            if kind == "do":
+                emit("\tpc, _, _, _ := runtime.Caller(0)")
+                emit("\treturn ln, f, runtime.FuncForPC(pc).Name()")
+            emit("//line %s:%d" % (fname, len(L) + 2))
+            emit("}")
+            emit("")
+    emit("var encLineSites = []encLineSite{")
+    for k, (cls, name, probe) in enumerate(LINE_SITES):
+        emit("\t{cls: %s, file: %s, probe: %s, at: encSiteAt%d, do: enchSiteDo%d}," % (go_quote(cls), go_quote(name), go_quote(probe), k, k))
+    emit("}")
+    with open(path, "wb") as fh:
+        fh.write(("\n".join(L) + "\n").encode("utf-8"))
+    print("wrote", path)
 
 
 # ------------------------------------------------------------------ model checking
@@ -54,12 +197,13 @@ def model_check(ctx, fmt):
     vocab_expr = ('[classes |-> Classes, kinds |-> Kinds, textkinds |-> TextKinds, control |-> Control, '
                   'layout |-> LayoutClasses, '
                   'must |-> [json |-> Classes \\ JsonRawOK, logfmt |-> Classes \\ GoRawOK, color |-> Control], '
-                  'mechjsonbad |-> MechJsonBad, reserved |-> ReservedIds, fgonlybad |-> FgOnlyCloseBad]')
+                  'mechjsonbad |-> MechJsonBad, reserved |-> ReservedIds, fgonlybad |-> FgOnlyCloseBad, '
+                  'siteclasses |-> SiteClasses, symbolcopybad |-> SymbolCopyBad]')
     mc = ("---- MODULE MC_Enc ----\nEXTENDS Encoder, Json\n"
           "c_KeyIds == {0, 1, 2, 3}\nc_KeyIds2 == {1, 2}\nc_KeyIdsR == {1, 99}\nc_KeyIdsR2 == {-1, 1, 98, 99}\n"
           'Export == PrintT("@@tree " \\o ToJson(flat))\n'
           'ASSUME PrintT("@@vocab " \\o ToJson(%s))\n====\n' % vocab_expr)
-    invs = ("Legal RoundTrip OneLine NoForgery NoRawControl MergeSorted MergeLastWins MergeIdempotent "
+    invs = ("Legal RoundTrip OneLine NoForgery NoRawControl CallerRoundTrip MergeSorted MergeLastWins MergeIdempotent "
             "MembersCount PairsAscending PairsComplete KeyNamesDoNotMatter ColourOK Export")
     cfg = ("CONSTANTS\n  KeyIds <- c_KeyIds\n  MaxNodes = %d\n  MaxDepth = %d\nINIT Init\nNEXT Next\n"
            "CHECK_DEADLOCK FALSE\nINVARIANTS %s\n" % (3 if quick else 4, 2 if quick else 3, invs))
@@ -95,13 +239,20 @@ def model_check(ctx, fmt):
     # vacuity: the invariants must be able to fail
     wcfg = ("CONSTANTS\n  KeyIds <- c_KeyIds\n  MaxNodes = 1\n  MaxDepth = 0\nINIT Init\nNEXT Next\n"
             "CHECK_DEADLOCK FALSE\nINVARIANTS %s\n")
-    for inv in (["MechIsJson"] if fmt == "json" else ["CRIsClean", "FgOnlyCloseIsClean"] if fmt == "color" else ["MechIsJson"]):
+    for inv in (["MechIsJson", "SymbolCopyIsLegal"] if fmt == "json" else ["CRIsClean", "FgOnlyCloseIsClean"] if fmt == "color"
+                else ["MechIsJson", "SymbolCopyIsLegal"]):
         w = ctx.tlc("MC_Enc", "W.cfg", files={"MC_Enc.tla": mc, "W.cfg": wcfg % inv}, name="enc-witness-" + inv,
                     allow_fail=True, workers=1, timeout=300)
         if inv not in w.invariant_violated and ("invariant of %s is equal to FALSE" % inv) not in w.out:
             raise Undecided("witness invariant %s was expected to be violated by TLC but was not" % inv)
         ctx.extra.setdefault("witness_violations", []).append(inv)
     ctx.extra["model_predicted_json_bad_classes"] = sorted(vocab["mechjsonbad"])
+    # the caller member: which (format, class of the call site's file name) pairs the discipline "copy a symbol-table
+    # string between the quotes unless it carries a quote" breaks, according to the model
+    ctx.extra["model_predicted_symbol_copy_breaks"] = {f: sorted(c for ff, c in vocab["symbolcopybad"] if ff == f)
+                                                       for f in ("json", "logfmt")}
+    if fmt != "color" and "bslash" not in ctx.extra["model_predicted_symbol_copy_breaks"][fmt]:
+        raise Undecided("witness SymbolCopyBad does not contain the backslash class for " + fmt)
     # where the discipline "closing reset only after a foreground" leaks, according to the model:
     # exactly the configurations without foreground but with a background / attribute, >= 2 lines
     ctx.extra["model_predicted_fg_only_close_leaks"] = sorted([list(x[0]), x[1]] for x in vocab["fgonlybad"])
@@ -137,12 +288,13 @@ class Gen:
         self.tags = []
         self.rng = random.Random(seed)
 
-    def add(self, tag, msg=None, attrs=None, name=None, caller=False, sev=4, width=3, minw=36, probe=None, salt=0, lc=None):
+    def add(self, tag, msg=None, attrs=None, name=None, caller=False, sev=4, width=3, minw=36, probe=None, salt=0, lc=None,
+            cfile="plain", site=0):
         if sev == 8 and all(c in ("space", "LF", "CR", "TAB") for c in (msg or [])) and msg is not None:
             sev = 4           # severity Always with a blank message is C02's special case, not a record
         c = dict(id=len(self.cases), fmt=self.fmt, testing=False,
-                 name=dict(has=name is not None, cls=list(name or [])), sev=sev, caller=caller, width=width,
-                 minw=minw, msg=list(msg if msg is not None else ["plain"]), attrs=attrs or [], salt=salt,
+                 name=dict(has=name is not None, cls=list(name or [])), sev=sev, caller=caller, cfile=cfile, site=site,
+                 width=width, minw=minw, msg=list(msg if msg is not None else ["plain"]), attrs=attrs or [], salt=salt,
                  lc=dict(set=True, fg=lc[0], bg=lc[1]) if lc else dict(NO_LC))
         if probe:
             c["probe"] = probe
@@ -157,7 +309,7 @@ def quoted_at(fmt, pos):
     if pos in ("key", "gkey"):
         return False
     if fmt == "color":
-        return pos not in ("msg", "name")
+        return pos not in ("msg", "name", "cfile")
     return True
 
 
@@ -166,6 +318,8 @@ def posgroup(fmt, pos):
         return "key"
     if pos == "name":
         return "name"
+    if pos == "cfile":
+        return "caller"
     if pos == "msg":
         return "msg" if fmt == "color" else "text"
     if pos in ("string", "error", "stringer", "strs"):
@@ -209,6 +363,81 @@ def gen_cells(g, vocab, reps):
                     g.add(tag, attrs=[node(1, pos, 1, vc=cls)], probe=probe, salt=s)
 
 
+SITE_ATTRS = [
+    lambda: [], lambda: [node(1, "int", 1)], lambda: [node(1, "string", 1, vc="quote"), node(2, "bool", 2)],
+    # the caller follows a group / an error / a value that ends in a backslash
+    lambda: [node(1, "int", 1), node(2, "group", 2, sub=[node(3, "string", 3), node(4, "int", 4)])],
+    lambda: [node(1, "error", 1)], lambda: [node(1, "string", 1, vc="bslash")],
+]
+SITE_MSGS = [["plain"], ["plain", "space", "plain"], ["plain", "LF", "plain"], ["plain", "quote", "plain"], ["nonascii"]]
+
+
+def gen_sites(g, vocab, reps, go_test=False):
+    """The caller member as part of the cell space: records attributed to REAL call sites of the worker behind
+    //line directives (LINE_SITES) - one cell per (class of the file name, site of that class) x message /
+    attribute shapes x name, caller flag on.  A site with sentinels is a probe cell: TLC judges the token form in
+    which the special character came out (string grammar of the format) besides Diag."""
+    fmt = g.fmt
+    n = 0
+    for cls in sorted(vocab["siteclasses"]):
+        variants = SITE_VARIANTS.get(cls)
+        if not variants:
+            raise Undecided("no //line call site for the file-name class %s of the specification" % cls)
+        for vi, (fname, probe) in enumerate(variants):
+            for s in range(reps):
+                n += 1
+                pr = dict(pos="cfile", cls=cls, quoted=quoted_at(fmt, "cfile")) if probe else None
+                msg = SITE_MSGS[(n + s) % len(SITE_MSGS)]
+                if go_test and s % 2:
+                    attrs = [node(1, "error", 1)]
+                else:
+                    attrs = SITE_ATTRS[(n * 5 + s) % len(SITE_ATTRS)]()
+                g.add(dict(t="cls", pos="cfile", posg="caller", cls=cls, site=vi + 1), msg=msg, attrs=attrs, caller=True,
+                      cfile=cls, site=vi + 1, probe=pr, salt=s, name=["plain"] if n % 3 == 0 else None,
+                      sev=SEVS[(n + s) % len(SEVS)] if s else 4, width=1 + (n + s) % 5 if fmt == "color" else 3,
+                      minw=(16, 36, 80)[(n + s) % 3] if fmt == "color" else 36)
+
+
+def check_sites(ctx, vocab):
+    """The worker's //line sites must be the table they were generated from, and the toolchain must have taken
+    every directive as written (binding; not a statement about the library)."""
+    p = ctx.run_worker(["enc", "sites"], testing=False)
+    try:
+        got = json.loads(p.stdout.strip().splitlines()[-1])
+    except (ValueError, IndexError):
+        raise Undecided("worker enc sites: no site list:\n" + p.stdout[-1000:] + p.stderr[-1000:])
+    if [(x["cls"], x["file"]) for x in got] != [(c, ascii_quote(f)) for c, f, _ in LINE_SITES]:
+        raise Undecided("harness/fam_encoder_sites.go is not generated from LINE_SITES (python3 checks/encoderlib.py gen-sites)")
+    bad = [x for x in got if not x["ok"]]
+    if bad:
+        raise Undecided("the runtime does not report the file name of the //line directive for %d site(s), e.g. %s -> %s"
+                        % (len(bad), bad[0]["file"], bad[0]["runtime"]))
+    missing = sorted(set(vocab["siteclasses"]) - set(SITE_VARIANTS))
+    if missing:
+        raise Undecided("no //line call site for the classes %s" % missing)
+    ctx.extra["line_sites"] = dict(sites=len(got), classes=len(SITE_VARIANTS),
+                                   refused_by_the_toolchain=["invalid UTF-8", "NUL", "U+FEFF"])
+
+
+def ascii_quote(s):
+    """strconv.QuoteToASCII of a valid string (the worker reports names that way)."""
+    out = ['"']
+    esc = {"\a": "\\a", "\b": "\\b", "\f": "\\f", "\n": "\\n", "\r": "\\r", "\t": "\\t", "\v": "\\v", "\\": "\\\\", '"': '\\"'}
+    for ch in s:
+        o = ord(ch)
+        if ch in esc:
+            out.append(esc[ch])
+        elif 0x20 <= o < 0x7f:
+            out.append(ch)
+        elif o < 0x80:
+            out.append("\\x%02x" % o)
+        elif o < 0x10000:
+            out.append("\\u%04x" % o)
+        else:
+            out.append("\\U%08x" % o)
+    return "".join(out) + '"'
+
+
 def gen_kinds(g, vocab, reps):
     kinds = sorted(k for k in vocab["kinds"] if k != "group" and (k != "textm" or g.fmt == "color"))
     for kind in kinds:
@@ -250,6 +479,19 @@ def gen_reserved(g, vocab, rtrees, quick):
                               attrs=wrap_groups(members, depth), salt=s, caller=(depth + s) % 2 == 1,
                               msg=["plain", "LF", "plain"] if s == 1 else ["plain"])
                     c["byvar"] = kind in ("time", "times")
+    # JSON only (the empty key is no legal logfmt key): the reserved names as keys of members of a group whose OWN
+    # key is the empty key - at top level and inside another group.  The key path written so far is empty there,
+    # exactly as at record level.
+    if fmt == "json":
+        for name, rid in sorted(RESERVED.items()):
+            for kind in kinds:
+                for place in ((0, 1) if kind in ("time", "times", "string", "group") else (0,)):
+                    for s in range(3 if kind in ("time", "times") else 1):
+                        x = node(rid, kind, 1, sub=[node(2, "int", 2), node(rid, "string", 3)] if kind == "group" else None)
+                        grp = [node(0, "group", 9, sub=[node(1, "int", 4), x, node(50, "string", 5)]), node(60, "int", 6)]
+                        c = g.add(dict(t="reskey", where="empty-group-member", name=name, kind=kind, depth=1 + place),
+                                  attrs=wrap_groups(grp, place), salt=s, caller=(place + s) % 2 == 1)
+                        c["byvar"] = kind in ("time", "times")
     # every tree over the keys {k01, time}; the leaves under `time` hold a time.Time / an int
     for i, flat in enumerate(rtrees):
         for leaf in ("time", "int"):
@@ -363,7 +605,8 @@ def gen_grid(g, quick):
 def parse_known(ctx, fmt, vocab):
     """Features named by the listed known findings of this property (used to also generate big
     records that avoid them, so that those records are judged without any allowance)."""
-    bad = dict(kinds=set(), text=set(), key=set(), name=set(), msg=set(), attrs=set(), raw={}, reserved=set(), colours=set())
+    bad = dict(kinds=set(), text=set(), key=set(), name=set(), msg=set(), attrs=set(), raw={}, reserved=set(), colours=set(),
+               caller=set())
     must = set(vocab["must"][fmt])
     for k in ctx.known:
         parts = k["key"].split(":")
@@ -371,7 +614,7 @@ def parse_known(ctx, fmt, vocab):
             continue
         pos, cls = parts[1], parts[2]
         cl = must if cls == "*" else {cls}
-        if pos in ("member-key", "top-key"):
+        if pos in RES_PLACES:
             bad["reserved"].add((pos, cls, parts[3] if len(parts) > 3 else "*"))
         elif pos == "colours":
             bad["colours"].add(cls)
@@ -379,7 +622,7 @@ def parse_known(ctx, fmt, vocab):
             bad["kinds"].add(cls)
         elif pos == "attrs":
             bad["attrs"].add(cls)
-        elif pos in ("text", "key", "name", "msg"):
+        elif pos in ("text", "key", "name", "msg", "caller"):
             bad[pos] |= cl
         else:                       # bytes / fallback / textm position
             bad["raw"].setdefault(pos, set()).update(cl)
@@ -393,7 +636,12 @@ def gen_big(g, vocab, count, clean_of=None):
     classes = sorted(vocab["classes"])
     kinds = sorted(k for k in vocab["kinds"] if k != "group" and (k != "textm" or fmt == "color"))
     bad = clean_of or dict(kinds=set(), text=set(), key=set(), name=set(), msg=set(), attrs=set(), raw={}, reserved=set(),
-                           colours=set())
+                           colours=set(), caller=set())
+    # call sites behind //line directives for records with the caller flag (colored: layout is claimed for
+    # file names without control characters - keep most big records inside that domain)
+    sitecls = [c for c in sorted(vocab["siteclasses"]) if c not in bad.get("caller", set()) and c in SITE_VARIANTS]
+    if fmt == "color":
+        sitecls = [c for c in sitecls if c not in vocab["control"]] * 4 + sitecls
     kinds = [k for k in kinds if k not in bad["kinds"]]
 
     def reserved_ok(where, name, kind):
@@ -425,7 +673,7 @@ def gen_big(g, vocab, count, clean_of=None):
         vid = [0]
         keyclass = {}
 
-        def mk(n, depth, allow_dup):
+        def mk(n, depth, allow_dup, parent_k=None):
             out = []
             used = []
             for i in range(n):
@@ -451,7 +699,8 @@ def gen_big(g, vocab, count, clean_of=None):
                 is_group = (not no_groups and depth < 4 and rng.random() < 0.12 and not (no_nested and depth > 0))
                 if k in RES_NAME and not is_group:
                     kind = rng.choice(["time"] * 3 + kinds)
-                    if kind in kinds and reserved_ok("member-key" if depth else "top-key", RES_NAME[k], kind):
+                    if kind in kinds and reserved_ok("member-key" if depth else "top-key", RES_NAME[k], kind) and \
+                            (parent_k != 0 or reserved_ok("empty-group-member", RES_NAME[k], kind)):
                         vc = vclass(kind) if kind in vocab["textkinds"] else "plain"
                         out.append(node(k, kind, vid[0], kc=kc, vc=vc))
                         continue
@@ -460,7 +709,7 @@ def gen_big(g, vocab, count, clean_of=None):
                 if is_group:
                     m = rng.choice([0, 1, 2, 3, 6]) if not no_empty_group else rng.choice([1, 2, 3, 6])
                     x = node(k, "group", vid[0], kc=kc)
-                    x["sub"] = mk(m, depth + 1, allow_dup)
+                    x["sub"] = mk(m, depth + 1, allow_dup, parent_k=k)
                     out.append(x)
                 else:
                     kind = rng.choice(kinds)
@@ -491,7 +740,11 @@ def gen_big(g, vocab, count, clean_of=None):
                 msg = [c for c in msg if c != "LF"]
         nm = None if rng.random() < 0.5 else [rng.choice(namecls + ["plain"] * 4) for _ in range(rng.randint(0, 3))]
         lc = rng.choice(lcs) if lcs and rng.random() < (0.4 if fmt == "color" else 0.1) else None
-        g.add(dict(t="big", clean=clean_of is not None), msg=msg, attrs=attrs, name=nm, caller=rng.random() < 0.5,
+        cfile, site = "plain", 0
+        if sitecls and rng.random() < 0.6:
+            cfile = rng.choice(sitecls)
+            site = 1 + rng.randrange(len(SITE_VARIANTS[cfile]))
+        g.add(dict(t="big", clean=clean_of is not None), msg=msg, attrs=attrs, name=nm, caller=rng.random() < 0.5, cfile=cfile, site=site,
               sev=rng.choice(SEVS[:-1] + [SEV_COLOURED_UNREG]) if lc else rng.choice(SEVS), width=rng.randint(1, 5),
               minw=rng.choice([16, 36, 80]), lc=lc)
 
@@ -577,7 +830,7 @@ def key_feature(key):
 def feats_match(fmt, key, feats, vocab):
     """Does a failing record with TLC-reported features `feats` contain the feature `key` names?"""
     pos, cls = key_feature(key)
-    if pos in ("member-key", "top-key"):
+    if pos in RES_PLACES:
         kind = (key.split(":") + ["*"])[3]
         return any(f.split(":")[0] == pos and cls in (f.split(":")[1], "*") and kind in (f.split(":")[2], "*") for f in feats)
     if pos == "colours":
@@ -597,7 +850,7 @@ def feats_match(fmt, key, feats, vocab):
             names |= IMPLIED.get(n, set())
         return all(c in names for c in cls.split("+"))
     cl = must if cls == "*" else {cls}
-    if pos in ("text", "key", "name", "msg"):
+    if pos in ("text", "key", "name", "msg", "caller"):
         return any((pos, c) in fs for c in cl)
     # raw value kinds (bytes / fallback / textm): the kind carries that class
     return ("value", pos) in fs and any(("text", c) in fs for c in cl)
@@ -622,6 +875,8 @@ def name_findings(ctx, fmt, vocab, cases, tags, bad, details, testing, seen_keys
         if t["t"] == "cls" and t["cls"] == "plain":
             if t["pos"] in bad_kinds or t["pos"] in TEXT_POS + ["textm"]:
                 broken_pos[t["pos"]] = "%s:value:%s" % (fmt, t["pos"])
+            elif t["pos"] == "cfile":
+                pass                  # the control site (an ordinary path) failing says nothing about the other classes
             elif t["pos"] == "gkey":
                 broken_pos[t["pos"]] = "%s:attrs:group" % fmt
             else:
@@ -699,13 +954,13 @@ def name_findings(ctx, fmt, vocab, cases, tags, bad, details, testing, seen_keys
                 key = "%s:%s:%s:%s%s" % (fmt, where, name, "*" if len(per) >= nkinds else kind, ":" + other if other else "")
                 res_keys.add(key)
                 found.append((key, i))
-    res_keys |= {k["key"] for k in ctx.known if k["key"].split(":")[1:2] in (["member-key"], ["top-key"])}
+    res_keys |= {k["key"] for k in ctx.known if (k["key"].split(":") + [""])[1] in RES_PLACES}
     for i, b in by_line.items():
         if tags[i]["t"] == "rtree":
             # a tree over {k01, time}: filed under the (place, name, kind) cell that fails on its own, if the tree has it
             other = set(b["diag"]) - ATTR_DIAGS
             hit = sorted(k for k in res_keys if k.startswith(fmt + ":") and feats_match(fmt, k, b["feats"], vocab))
-            rf = sorted(f for f in b["feats"] if f.split(":")[0] in ("member-key", "top-key"))
+            rf = sorted(f for f in b["feats"] if f.split(":")[0] in RES_PLACES)
             key = hit[0] if hit and not other else \
                 ("%s:%s" % (fmt, rf[0]) if rf else "%s:attrs:reserved-tree" % fmt) + (":" + "+".join(sorted(other)) if other else "")
             found.append((key, i))
@@ -773,7 +1028,8 @@ def nontrivial_sig(c, tag):
     def shape(ns):
         return tuple((n["k"], n["kind"], n["kc"], n["vc"], shape(n["sub"])) for n in ns)
     return (c["fmt"], tuple(c["msg"]), shape(c["attrs"]), c["name"]["has"], tuple(c["name"]["cls"]), c["sev"],
-            c["caller"], c["width"], c["minw"], c["lc"]["set"], c["lc"]["fg"], c["lc"]["bg"])
+            c["caller"], c["cfile"] if c["caller"] else "", c["site"] if c["caller"] else 0, c["width"], c["minw"],
+            c["lc"]["set"], c["lc"]["fg"], c["lc"]["bg"])
 
 
 def run_format(ctx, fmt, replay):
@@ -781,9 +1037,11 @@ def run_format(ctx, fmt, replay):
         return do_replay(ctx, fmt, replay)
     quick = ctx.quick()
     vocab, trees = model_check(ctx, fmt)
+    check_sites(ctx, vocab)
     # ---- production-mode records
     g = Gen(fmt, ctx.seed * 100003 + 11)
     gen_cells(g, vocab, 2 if quick else 12)
+    gen_sites(g, vocab, 3 if quick else 12)
     gen_kinds(g, vocab, 12 if quick else 48)
     gen_trees(g, trees)
     gen_grid(g, quick)
@@ -800,6 +1058,7 @@ def run_format(ctx, fmt, replay):
             gt.add(dict(t="cls", pos="error", posg=posgroup(fmt, "error"), cls=cls), attrs=[node(1, "error", 1, vc=cls)],
                    probe=dict(pos="error", cls=cls, quoted=quoted_at(fmt, "error")), salt=s,
                    msg=["plain", "LF", "plain"] if s % 2 else ["plain"])
+    gen_sites(gt, vocab, 1 if quick else 4, go_test=True)
     gen_trees(gt, trees[:: (10 if quick else 40)])
     gen_reserved(gt, dict(vocab, kinds=["time", "error", "string", "group"]), vocab["rtrees"][:: (10 if quick else 4)], True)
     if fmt == "color":
@@ -856,6 +1115,8 @@ def run_format(ctx, fmt, replay):
     ctx.extra["trees_enumerated_by_tlc"] = len(trees)
     ctx.extra["records_by_source"] = {k: sum(1 for t in g.tags + gt.tags if t["t"] == k)
                                       for k in ("cls", "value", "tree", "grid", "reskey", "rtree", "lc", "big")}
+    ctx.extra["records_by_source"]["caller-site"] = sum(1 for t in g.tags + gt.tags if t.get("pos") == "cfile")
+    ctx.extra["records_with_line_site"] = sum(1 for c in g.cases + gt.cases if c["caller"] and c["site"])
     ctx.extra["reserved_key_trees_enumerated_by_tlc"] = len(vocab["rtrees"])
     ctx.extra["finding_keys"] = sorted({k for k, _ in allfound})
     ctx.assumptions += [
@@ -865,6 +1126,15 @@ def run_format(ctx, fmt, replay):
         "attributes in all three formats); as TOP-LEVEL keys they are outside the domain of C04/C05 (quantifier) and are generated "
         "for C06 only, where a top-level `time` holding a time.Time may be rendered in any way (TopTimeWaived); values of kinds "
         "whose colored syntax C06 does not fix contain no spaces",
+        "caller member: records with the caller flag are attributed to real call sites of the worker, most of them behind "
+        "//line directives whose file names carry a backslash (Windows paths), quote, blank, TAB, CR, LF (block form), other "
+        "control characters, ESC, DEL, non-ASCII, U+200B/U+0085, U+2028, astral code points, markup, '=' - everything the Go "
+        "toolchain accepts (it refuses invalid UTF-8, NUL and U+FEFF); caller.file must decode to EXACTLY slog.Safety(file the "
+        "runtime reports for the site) evaluated right after the record under the same flags, line exactly, the function by its "
+        "last path element; colored: C06 fixes no quoting for the caller - the file is accepted as it is or Go-quoted - and a "
+        "file name with a control character (the program's own source position, not an attribute value) is judged for colour "
+        "hygiene only; per-record cells hand the program counter of the site to Entry.WriteThru, the history component logs "
+        "from the site through Info / Warn / Logit / LogAttrs",
         "level colours: SetLevelColors is called right before a record that carries lc.set and the table is put back afterwards "
         "(sequences of colour changes and records are the history component's); an escape sequence ESC [ ... m with a malformed "
         "parameter list (ESC[-1m, written for a level without foreground) is an escape sequence a terminal ignores: removed "
@@ -872,7 +1142,8 @@ def run_format(ctx, fmt, replay):
     ]
     return ctx.finish(
         rule="records = (position x character class) cells, value-kind cells, every attribute tree TLC enumerated "
-             "(<=%d nodes), presentation grid, reserved-name cells (5 names x every kind x depth 1..3, every tree over "
+             "(<=%d nodes), presentation grid, caller-site cells (every file-name class the toolchain accepts in a //line "
+             "directive x sites of that class x message / attribute shapes, caller flag on), reserved-name cells (5 names x every kind x depth 1..3, every tree over "
              "{k01,time}), level-colour cells ({no fg,fg} x {none,bg,attr} x line shapes x attribute lists x severities), "
              "seeded random big records, in production and go-test mode; "
              "non-trivial = distinct abstract records (message classes, attribute tree with kinds/classes, name, "
@@ -918,6 +1189,12 @@ def do_replay(ctx, fmt, path):
         ctx.finding(key, "replayed record still violates %s (mode %s); payload=%s" % (
             ",".join(sorted(b["diag"])), b["mode"], details[0]["payload"][:1500]), rp)
     return ctx.finish(rule="replay of one recorded record", exhaustive=False)
+
+
+if __name__ == "__main__":
+    import sys
+    if len(sys.argv) > 1 and sys.argv[1] == "gen-sites":
+        gen_line_sites(sys.argv[2] if len(sys.argv) > 2 else None)
 
 
 def run_worker_single(ctx, case, testing):
